@@ -118,7 +118,7 @@ def s_eigh(ch, T):
         return None      # complex Hermitian / general input: the chosen observables are not gauge invariant there (see DESIGN)
     batch = ch.choose("batch", BATCH)
     n = ch.choose("n", [1, 2, 3])
-    uplo = ch.choose("UPLO", [None, "L", "U"])
+    uplo = ch.choose("UPLO", [None, "L", "U", "u", "l"])      # NumPy accepts lower-case spellings
     obs = ch.choose("observable", ["w", "w2", "proj", "fun"])
     u = "" if uplo is None else ", UPLO=%r" % uplo
     e = "np.linalg.eigh(x%s)" % u
